@@ -15,6 +15,9 @@ def units(tier):
             us.append(Unit(M.MangleFile, {'n': n, 'level': level}))
             if n <= 3:
                 us.append(Unit(M.MangleDir, {'n': n, 'level': level}))
+    for name in ('x' * 30 + '.tx2', 'y' * 40 + '.t', 'z' * 28 + '.abc', 'w' * 27 + '.abc', 'v' * 35, 'u' * 29 + '.toolong'):
+        for level in (2, 3):
+            us.append(Unit(M.MangleFileLong, {'name': name, 'level': level}))
     # facade safety: a lookup by Rock Ridge name either finds the entry with exactly that name or reports 'not found'
     from contracts import names as N
     for n, ln in ((1, 1), (2, 2), (3, 1)) if tier == 'quick' else ((1, 1), (1, 2), (2, 1), (2, 2), (3, 1), (3, 2), (4, 1)):
